@@ -9,6 +9,7 @@ import (
 	"fmt"
 	"os"
 	"path/filepath"
+	"reflect"
 	"strings"
 	"sync"
 	"sync/atomic"
@@ -71,7 +72,7 @@ func parallel(n int, f func(g int, r *rng)) {
 var seed uint64
 
 func main() {
-	part := flag.String("part", "loader", "loader|files|values|types")
+	part := flag.String("part", "loader", "loader|files|values|types|declare")
 	dir := flag.String("dir", "", "scratch directory")
 	n := flag.Int("n", 8, "goroutines")
 	iters := flag.Int("iters", 300, "iterations per goroutine")
@@ -89,6 +90,8 @@ func main() {
 			stressValues(*n, *iters)
 		case "types":
 			stressTypes(*n, *iters)
+		case "declare":
+			stressDeclare(round, *n, *iters)
 		default:
 			fmt.Println("unknown part")
 			os.Exit(2)
@@ -388,5 +391,134 @@ func stressTypes(n, iters int) {
 				})
 			}
 		}
+	})
+}
+
+// ---- declarations at run time and pcore.Do / RootContext -------------------------------------------------------
+// (the lists of pending declarations of types/types.go and internal/context.go: every goroutine declares types,
+// mappings, constructors and functions of its own and then enters a Do, whose function must find all of them usable)
+
+type countingType struct {
+	name     string
+	resolves int32
+}
+
+func (p *countingType) Name() string { return p.name }
+func (p *countingType) Resolve(c px.Context) px.Type {
+	atomic.AddInt32(&p.resolves, 1)
+	return types.DefaultAnyType()
+}
+
+func stressDeclare(round, n, iters int) {
+	var all sync.Map // type name -> *countingType (nil for an object type)
+	identity := func(d px.Dispatch) {
+		d.Param(`Integer`)
+		d.Function(func(c px.Context, args []px.Value) px.Value { return args[0] })
+	}
+	checkType := func(c px.Context, name string) {
+		v, ok := px.Load(c, tn(name))
+		if !ok {
+			functional("declare", "%s was declared before the Do but is not bound inside it", name)
+			return
+		}
+		ot, isObj := v.(px.ObjectType)
+		if !isObj {
+			functional("declare", "%s is bound to a %T", name, v)
+			return
+		}
+		if ot.AttributesInfo() == nil {
+			functional("declare", "%s was declared before the Do but is unresolved inside it", name)
+			return
+		}
+		if o := px.New(c, ot, types.WrapInteger(3)); o.String() != name+"('x' => 3)" {
+			functional("declare", "an instance of %s is %s", name, o.String())
+		}
+	}
+	parallel(n, func(g int, r *rng) {
+		for i := 0; i < iters; i++ {
+			base := fmt.Sprintf("C13race::R%d::G%d::I%d", round, g, i)
+			var tnames, cnames, fnames []string
+			var probes []*countingType
+			var gname string
+			var gtype reflect.Type
+			guard("declare", "declaring", func() {
+				for k := 0; k < 1+r.intn(3); k++ {
+					nm := fmt.Sprintf("%s::K%d", base, k)
+					switch r.intn(6) {
+					case 0, 1:
+						px.NewObjectType(nm, `{attributes => {x => Integer}}`)
+						tnames = append(tnames, nm)
+						all.Store(nm, (*countingType)(nil))
+					case 2:
+						p := &countingType{name: nm}
+						px.RegisterResolvableType(p)
+						probes = append(probes, p)
+						all.Store(nm, p)
+					case 3:
+						px.NewGoConstructor(nm, identity)
+						cnames = append(cnames, nm)
+					case 4:
+						px.NewGoFunction(strings.ToLower(nm), identity)
+						fnames = append(fnames, strings.ToLower(nm))
+					case 5:
+						if gname == "" {
+							gname = nm
+							gtype = reflect.StructOf([]reflect.StructField{{Name: fmt.Sprintf("R%dG%dI%d", round, g, i), Type: reflect.TypeOf(0)}})
+							px.NewGoObjectType(nm, gtype, `{attributes => {x => Integer}}`)
+							all.Store(nm, (*countingType)(nil))
+						}
+					}
+				}
+			})
+			look := func(c px.Context) {
+				for _, nm := range tnames {
+					checkType(c, nm)
+				}
+				if gname != "" {
+					checkType(c, gname)
+					// (the mapping is registered in the context of whichever Do took it: if it is here, it is the right one)
+					if t, ok := c.ImplementationRegistry().ReflectedToType(gtype); ok && t.Name() != gname {
+						functional("declare", "the reflected type of %s is mapped to %s", gname, t.Name())
+					}
+				}
+				for _, p := range probes {
+					if k := atomic.LoadInt32(&p.resolves); k != 1 {
+						functional("declare", "%s was declared before the Do and has been resolved %d times inside it", p.name, k)
+					}
+				}
+				for _, nm := range cnames {
+					if _, ok := px.Load(c, px.NewTypedName(px.NsConstructor, nm)); !ok {
+						functional("declare", "the constructor %s was declared before the Do but is not bound inside it", nm)
+					}
+				}
+				for _, nm := range fnames {
+					if f, ok := px.Load(c, px.NewTypedName(px.NsFunction, nm)); !ok {
+						functional("declare", "the function %s was declared before the Do but is not bound inside it", nm)
+					} else if v := f.(px.Function).Call(c, nil, types.WrapInteger(7)); !v.Equals(types.WrapInteger(7), nil) {
+						functional("declare", "the function %s answers %s", nm, v)
+					}
+				}
+			}
+			if r.intn(4) == 0 {
+				guard("declare", "RootContext", func() { look(pcore.RootContext()) })
+			} else {
+				guard("declare", "Do", func() { pcore.Do(look) })
+			}
+		}
+	})
+	// afterwards: everything that was declared is resolved, once
+	guard("declare", "Do", func() {
+		pcore.Do(func(c px.Context) {
+			all.Range(func(k, v interface{}) bool {
+				if p := v.(*countingType); p != nil {
+					if n := atomic.LoadInt32(&p.resolves); n != 1 {
+						functional("declare", "%s has been resolved %d times in the end", p.name, n)
+					}
+				} else {
+					checkType(c, k.(string))
+				}
+				return true
+			})
+		})
 	})
 }
